@@ -32,7 +32,9 @@ ASSUMPTIONS = [
     "machine_id_file (and generate_machine_id's default destination) redirected to a temp world; "
     "cert_auth.RHSM_CONFIG / rhsmCertificate.read are stubbed: module absent, certificate unreadable, or an identity "
     "spelled canonically (v4), un-hyphenated, in upper case, as a non-version-4 UUID, or with white space around it",
-    "identifier file states: absent, empty, canonical, un-hyphenated (upper or lower case by seed), trailing newline; "
+    "identifier file states: absent, empty, canonical, un-hyphenated (upper or lower case by seed), trailing newline, "
+    "white space around it; a dangling marker link points (by seed) to a missing file in an existing directory or "
+    "into a missing directory; Unregister uses (by seed) write_unregistered_file() or write_unregistered_file(date); "
     "files that hold something that is not a UUID are not explored (the code exits with an error there)",
     "a read 'rewrites' the file when its bytes change or when it is opened for writing / replaced "
     "(observed through a sentinel mtime and the inode)",
@@ -68,6 +70,8 @@ def antecedents(trace, counts):
                     hit = True
                 if pre[own][d] in ("link", "dangling"):
                     counts["link-at-own-marker:" + pre[own][d]] += 1
+                    if e["k"] == "dated":
+                        counts["link-at-own-marker:unregister-with-date"] += 1
                     hit = True
                 if pre[opp][d] in ("link", "dangling"):
                     counts["link-at-opposite-marker:" + pre[opp][d]] += 1
@@ -100,7 +104,8 @@ REQUIRED = ["exclusive:opposite-present", "link-at-own-marker:link", "link-at-ow
             "read-with-identifier-file:newline", "read-without-identifier-file:absent",
             "read-without-identifier-file:empty", "id-returned"] + \
            ["obtained-from-subscription-identity:" + k for k in RHSM_KINDS] + \
-           ["read-with-identifier-file:" + f for f in ("upper", "nonv4", "spaced")]
+           ["read-with-identifier-file:" + f for f in ("upper", "nonv4", "spaced")] + \
+           ["link-at-own-marker:unregister-with-date"]
 
 
 def selftests(traces):
@@ -261,7 +266,7 @@ def run(prop, tier):
     print("timing: driver %.1fs, %d traces, operations %s" % (time.time() - t1, len(traces), stats))
     if len(traces) != len(cases):
         raise lib.MachineryError("driver returned %d traces for %d cases" % (len(traces), len(cases)))
-    for a in ACTIONS:
+    for a in ACTIONS + ("dangling:target-directory-missing", "dangling:target-file-missing"):
         if not stats.get(a):
             raise lib.MachineryError("vacuity: operation %s never replayed" % a)
     if not stats.get("rhsm_calls"):
